@@ -1296,6 +1296,19 @@ class Compiler:
         fallback = identifier("__fallback", id(node))
         body += template("fallback = len(__stream)", fallback=fallback)
 
+        # Definitions made by elements which the failure cuts short are
+        # not taken back by those elements; the handler puts the local
+        # variables back as they were (and the globals defined so far on
+        # top, as after a macro call).
+        scope = identifier("__scope", id(node))
+        body += template(
+            "scope = DICT.copy(econtext)", scope=scope, DICT=Builtin("dict")
+        )
+        scope_restore = template(
+            "DICT.clear(econtext); econtext.update(scope); "
+            "econtext.update(rcontext)", scope=scope, DICT=Builtin("dict")
+        )
+
         self._enter_assignment((node.name, ))
         fallback_body = self.visit(node.fallback)
         self._leave_assignment((node.name, ))
@@ -1316,7 +1329,8 @@ class Compiler:
             handlers=[ast.ExceptHandler(
                 type=ast.Tuple(elts=[Builtin("Exception")], ctx=ast.Load()),
                 name="__exc",
-                body=(error_assignment +
+                body=(scope_restore +
+                      error_assignment +
                       # The failure is handled: forget the positions
                       # recorded for it on the way up.
                       template("rcontext.pop('__error__', None)") +
